@@ -86,7 +86,12 @@ func SiblingOf(d XDialect) (XDialect, bool) {
 	}
 	top := XFile{Name: d.Files[0].Name + "sib", Version: d.Files[0].Version, Includes: append([]string(nil), d.Files[0].Includes...)}
 	s := XDialect{Files: append([]XFile{top}, d.Files[1:]...), ExtraProbe: map[string][]uint64{}}
-	_, entries, bitmask := s.MergedEnums()
+	names, entries, bitmask := s.MergedEnums()
+	for _, n := range names {
+		if len(entries[n]) == 0 {
+			return XDialect{}, false // an enum the included files only announce: d's top-level file supplies its entries
+		}
+	}
 	for _, m := range s.AllMsgs() {
 		for _, f := range m.Fields {
 			if _, ok := entries[f.Enum]; f.Enum != "" && !ok {
